@@ -456,6 +456,8 @@ func checkC20(c *Check) {
 	// be nil always (every non-nil assignment is itself behind "field != nil": by induction from the nil the
 	// constructor leaves, none is ever executed).
 	c.timerDrainRule("R2", pkg)
+	// validating a submission asks the cluster's hostname service: that call must come back when the service is down
+	c.serviceClientSends("R2")
 
 	// ---- R5 only validated manifests (validity = hash equals the latest recorded version, stand-alone and cross validation)
 	c.manifestVersionRule("R5")
@@ -649,4 +651,26 @@ func (c *Check) timerDrainRule(rule, pkg string) {
 			c.Ob(rule, "no receive from a timer's channel after its Stop() returned true in "+fnName(fn), rc.Pos(), false, "Stop() returning true means the tick was cancelled: the receive from ."+field+".C never completes and the manager stops answering submissions")
 		})
 	}
+}
+
+// announcesLatestManifest: what the manifest manager hands to the deployment manager (the ManifestReceived event) is
+// the manifest validated last, together with the fetched chain data, for the lease it is announced for. Shared by
+// C14 (the last deploy uses the most recently received manifest) and C20-R4.
+func (c *Check) announcesLatestManifest(rule string) {
+	l := c.L
+	nrm := func(s string) string { return strings.ReplaceAll(s, "*", "") }
+	em := l.Func("provider/manifest", "manager", "emitReceivedEvents")
+	c.Analysed(fnName(em))
+	var pub *ssa.Call
+	for _, call := range callsIn(em, false) {
+		if calleeMethod(call) == "Publish" {
+			pub = call.(*ssa.Call)
+		}
+	}
+	if pub == nil {
+		c.Ob(rule, "the manifest announcement site exists", em.Pos(), false, "")
+		return
+	}
+	ev := nrm(Sym(pub.Call.Args[len(pub.Call.Args)-1]))
+	c.Ob(rule, "the manifest announced to the deployment manager is the one validated last", pub.Pos(), strings.Contains(ev, "Manifest: p:m.manifests[(builtin.len(p:m.manifests) - 1)]"), "the event carries "+short(ev)+": after an update the deployment manager is handed an older manifest and deploys it")
 }
